@@ -10,6 +10,7 @@ library code) is observed by the correspondence harness on the implementation.
 import ThriftVerif.Wire.LazyProofs
 import ThriftVerif.Wire.EnvelopeProofs
 import ThriftVerif.Schema.LazyAgree
+import ThriftVerif.Schema.LazyTotal
 
 namespace ThriftVerif.Properties.C03
 open ThriftVerif.Wire
@@ -18,6 +19,23 @@ open ThriftVerif.Wire
 and EVERY requested type byte — the model's fuel never runs out. -/
 theorem decode_total (t : UInt8) (bs : Bytes) : decode t bs ≠ .error .fuel :=
   ThriftVerif.Wire.decode_total t bs
+
+/-- Totality of `Skip` (`StreamReader.Skip`, both discard strategies: `io.CopyN` into
+`io.Discard`, and the unchecked `Seek`): on every type byte and every byte string the model
+returns a position or `bad`, never "out of fuel" — every recursive call follows at least one
+byte that was really read. -/
+theorem skip_total (seek : Bool) (t : UInt8) (bs : Bytes) : skipTop seek t bs ≠ .error .fuel :=
+  ThriftVerif.Wire.skip_total seek t bs
+
+/-- Totality of the random-access decoder as `binary.Decode` runs it (containers validated by
+the seeking skip, nothing forced) … -/
+theorem lazy_decode_total (t : UInt8) (bs : Bytes) :
+    ThriftVerif.Schema.decL (fuelFor bs) t (bs, 0) ≠ .error .fuel :=
+  ThriftVerif.Schema.decL_total t bs
+
+/-- … and with every lazy container forced (`ForEach` re-reading the items). -/
+theorem lazy_forced_decode_total (t : UInt8) (bs : Bytes) : decodeLazyForced t bs ≠ .error .fuel :=
+  decodeLazyForced_total t bs
 
 /-- Canonical form (streaming reader): whenever decoding succeeds, re-encoding the value
 reproduces exactly the consumed prefix, and the value has the requested type. -/
